@@ -734,7 +734,9 @@ def rules(tier):
             # "the per-level password counts the trainer saves": one per password, under its level
             ('C11.R23', _shared_rule('c18', 'r22_level_tally')),
             # C11-fb: `cur_index = 0` hoisted out of `while cur_level >= 0` in _fill_out_parse_tree
-            ('C11.R24', _shared_rule('c10', 'r27_inner_counters'))]
+            ('C11.R24', _shared_rule('c10', 'r27_inner_counters')),
+            # C11-ga: IP.level written without the n-grams that never start a password (level 10): the trainer still scores them
+            ('C11.R25', _shared_rule('c18', 'r3_writers_complete'))]
 
 
 META = {
